@@ -7,7 +7,8 @@ CHECK = {
          'enumerated (K = number of create/write/sync/rename/remove/dir-sync operations the step issues): nothing from operation k on is durable, then '
          'the database is reopened. Non-trivial = crash point strictly inside the step (0<k<K) on a step that is a delete/tie break or an apply whose '
          'block carried at least two kinds of records. Distinct by (history, step, k)'
-         ' Block caches of 2 or 3 blocks (next to the default 515) with removals in a row, so that the removal which drains the cache and refills it from the database is a target step (label target-removal-drains-the-block-cache); KeepEventsForHeights 0 among the configurations.',
+         ' Block caches of 2 or 3 blocks (next to the default 515) with removals in a row, so that the removal which drains the cache and refills it from the database is a target step (label target-removal-drains-the-block-cache); KeepEventsForHeights 0 among the configurations.'
+         ' Blocks with 65-140 small transactions (size in number of records, not bytes) among the large-block class (label target-step-more-than-64-transactions).',
  'level_text': 'For every crash point the reopened database must equal, record for record, the crash-free state before or after the step (tie break: '
                'also the state between its remove and add); the node must restart on it, with tip = highest height index, every height above finality '
                'having block and revert diff, no diff above the tip, consensus store at the tip, and must accept the next valid block.',
